@@ -90,6 +90,8 @@ class CondSpace:
             return
         if op in ("is", "isnot"):
             op = "=="
+        if _const_like(a) and _const_like(b):
+            return          # decided by the constants themselves
         if _const_like(a) and not _const_like(b):
             a, b, op = b, a, _FLIP.get(op, op)
         if _const_like(b):
@@ -180,6 +182,14 @@ class CondSpace:
             op, neg = "==", True
         elif op == "is":
             op = "=="
+        if _const_like(a) and _const_like(b):
+            va, vb = _const_value(a), _const_value(b)
+            if va[0] == "c" and vb[0] == "c" and isinstance(va[2], (int, float)) and isinstance(vb[2], (int, float)) and not isinstance(va[2], bool) and not isinstance(vb[2], bool):
+                x, y = float(va[2]), float(vb[2])
+                r = {"==": x == y, "!=": x != y, "<": x < y, "<=": x <= y, ">": x > y, ">=": x >= y}[op]
+            else:
+                r = {"==": va == vb, "!=": va != vb}.get(op, False)
+            return (not r) if neg else r
         if _const_like(a) and not _const_like(b):
             a, b, op = b, a, _FLIP.get(op, op)
         if _const_like(b):
